@@ -42,6 +42,16 @@ Proof.
 Qed.
 Print Assumptions C05_failure_gate.
 
+(* ... and a Get that checks after the stored expiry instant (or finds no failure) goes on towards the builder *)
+Theorem C05_gate_opens_after_expiry :
+  forall fe nilb c s t o s' th,
+    threads s !! t = Some th -> t_pc th = PFailCache ->
+    (forall e ex, errs s !! t_key th = Some (e, ex) -> ex <> 0 /\ ex < o_now o) ->
+    fstep fe nilb c s (LStep t o) = Some s' ->
+    exists th', threads s' !! t = Some th' /\ t_pc th' = PCtxSync /\ flog s' = flog s ++ [].
+Proof. exact gate_open. Qed.
+Print Assumptions C05_gate_opens_after_expiry.
+
 (* FailedUpdateTTL = -1: nothing is ever cached, the failure cache cannot suppress the next build *)
 Theorem C05_failures_not_cached :
   forall fe nilb c ls s, f_failed_ttl c < 0 -> frun fe nilb c f0 ls = Some s -> errs s = ∅.
